@@ -33,20 +33,21 @@ var ruleSets = map[string]func(a *Analyzer, r *Results){
 	"loops":  runLoops,
 	"shutdown": runShutdown,
 	"timer":  runTimer,
+	"c20":    runC20,
 }
 
 // which rule sets each property needs
 var propSets = map[string][]string{
 	"C01": {"ingest", "proof", "c06"},
 	"C02": {"c02", "c12"},
-	"C03": {"ingest"},
+	"C03": {"ingest", "c20"},
 	"C04": {"ingest"},
 	"C05": {"ingest", "chan", "loops", "setters"},
 	"C06": {"c06"},
 	"C07": {"ingest", "proof"},
 	"C08": {"ingest", "proof"},
-	"C09": {"ingest"},
-	"C10": {"ingest", "setters"},
+	"C09": {"ingest", "c20"},
+	"C10": {"ingest", "setters", "c20"},
 	"C11": {"ingest", "proof"},
 	"C12": {"c12", "c18"},
 	"C13": {"ingest", "setters", "locks", "registry", "loops"},
@@ -56,6 +57,7 @@ var propSets = map[string][]string{
 	"C17": {"ingest", "c17"},
 	"C18": {"c18"},
 	"C19": {"c19f", "timer", "chan", "loops", "ingest"},
+	"C20": {"c20"},
 }
 
 // minimum number of obligation instances per rule confirmed by reading (vacuity guard)
@@ -243,8 +245,8 @@ func report(a *Analyzer, res *Results, prop, tier, outDir, knownPath string, sta
 	for _, l := range lines {
 		fmt.Println(l)
 	}
-	if nViol > 0 && code == 0 {
-		code = 1
+	if nViol > 0 {
+		code = 1 // a decided violation stands even if other obligations could not be decided
 	}
 	wall := time.Since(start).Seconds()
 	fmt.Printf("%s: %d obligation keys (%d instances): %d discharged, %d known findings, %d violations; %d packages, %d functions; %.1fs\n",
